@@ -57,6 +57,17 @@ theorem sha_buffering_generic (tr : List W32 → List UInt8 → List W32) (s0 : 
     (finishC tr (pieces.foldl (updateC tr) (initC s0 buf0))).state = (blocks (pad pieces.flatten)).foldl tr s0 :=
   (stream_generic tr s0 buf0 hb pieces).1
 
+/-- The length field: for a grid of byte counts (0 … 2^61−1, including 2^29−1, 2^29, 2^32−1, 2^32) the eight bytes that
+    the compiled `lzma_sha256_finish` leaves in `buffer.u8[56..63]` (tabulated by running it) are the big-endian value
+    of `size * 8 mod 2^64`, as the model's `finishC` writes them — a carry lost between 32-bit halves breaks this. -/
+theorem sha_length_field_bridge :
+    Gen.C14.shaLenField.all (fun p => p.2 == lengthBitsC p.1) = true ∧ 12 ≤ Gen.C14.shaLenField.length := by
+  decide +kernel
+
+/-- … and that value is the FIPS 180-4 bit length `8·ℓ` for every message shorter than 2^61 bytes. -/
+theorem sha_length_field (size : Nat) (h : size < 2 ^ 61) : lengthBitsC size = 8 * size := by
+  unfold lengthBitsC; omega
+
 /-! ### check.c -/
 
 /-- `lzma_check_size()` for IDs 0…15 and above agrees with the sizes of file-format.txt 2.1.1.2. -/
